@@ -509,4 +509,132 @@ theorem check_valid_eq (c : CV.Content) :
             simp [ha, hsd, hd, hd', bind, Except.bind, throw, throwThe, MonadExceptOf.throw]
     · simp [ha, bind, Except.bind, throw, throwThe, MonadExceptOf.throw]
 
+
+/-! ### result shapes of `get_subset` and `from_sequence` (`while` loops) -/
+
+/-- `while cond: s = step(s)` run for at most `n` rounds -/
+def whileFuel {σ : Type} (cond : σ → Bool) (step : σ → σ) : Nat → σ → σ
+  | 0, s => s
+  | n + 1, s => if cond s then whileFuel cond step n (step s) else s
+
+/-- the `for _ in range(fuel): if not cond: break; s = step(s)` rendering of a `while` loop -/
+theorem forIn_while {β σ : Type} (cond : σ → Bool) (step : σ → σ) : ∀ (l : List β) (s : σ),
+    (forIn (m := Except PyErr) l s fun (_ : β) (r : σ) =>
+        if (!cond r) = true then pure (ForInStep.done r) else pure (ForInStep.yield (step r))) =
+      .ok (whileFuel cond step l.length s)
+  | [], s => rfl
+  | x :: xs, s => by
+    rw [List.forIn_cons]
+    by_cases h : cond s = true
+    · simp only [h, Bool.not_true, Bool.false_eq_true, if_false, List.length_cons, whileFuel, if_true]
+      exact forIn_while cond step xs (step s)
+    · have h' : cond s = false := by simpa using h
+      simp [h', whileFuel, bind, Except.bind, pure, Except.pure]
+
+def trimCond (l : List Nat) : Bool := (l[l.length - 1]! == 1) && decide (l.length > 3)
+
+theorem whileFuel_trim : ∀ (n : Nat) (r : List Nat), r.length ≤ n →
+    whileFuel trimCond List.dropLast n r.reverse = (trimRev r).reverse
+  | 0, r, h => by
+    have : r = [] := List.eq_nil_of_length_eq_zero (by omega)
+    subst this; rfl
+  | n + 1, [], _ => by simp [whileFuel, trimCond, trimRev]
+  | n + 1, x :: rest, h => by
+    have hrev : (x :: rest).reverse = rest.reverse ++ [x] := by simp
+    rw [hrev]
+    have hlast : (rest.reverse ++ [x])[(rest.reverse ++ [x]).length - 1]! = x := by simp
+    have hlen : (rest.reverse ++ [x]).length = rest.length + 1 := by simp
+    have hd : (rest.reverse ++ [x]).dropLast = rest.reverse := by simp
+    by_cases hx : x = 1
+    · subst hx
+      by_cases h3 : 3 ≤ rest.length
+      · have hc : trimCond (rest.reverse ++ [1]) = true := by
+          unfold trimCond; rw [hlast, hlen]; simp; omega
+        rw [whileFuel, if_pos hc, hd]
+        have : trimRev (1 :: rest) = trimRev rest := by simp [trimRev, h3]
+        rw [this]
+        exact whileFuel_trim n rest (by simp at h; omega)
+      · have hc : trimCond (rest.reverse ++ [1]) = false := by
+          unfold trimCond; rw [hlast, hlen]; simp; omega
+        rw [whileFuel, if_neg (by simp [hc])]
+        have : trimRev (1 :: rest) = 1 :: rest := by simp [trimRev, h3]
+        rw [this, hrev]
+    · have hc : trimCond (rest.reverse ++ [x]) = false := by
+        unfold trimCond; rw [hlast]; simp [hx]
+      have ht : trimRev (x :: rest) = x :: rest := by
+        unfold trimRev
+        split
+        · rename_i heq; simp at heq; exact absurd heq.1 hx
+        · rfl
+      rw [whileFuel, if_neg (by simp [hc]), ht, hrev]
+
+theorem whileFuel_stable {σ : Type} (cond : σ → Bool) (step : σ → σ) (n : Nat) (s : σ) (h : cond s = false) :
+    whileFuel cond step n s = s := by
+  cases n <;> simp [whileFuel, h]
+
+/-- after enough rounds the loop condition is false -/
+theorem trimCond_after : ∀ (n : Nat) (r : List Nat), r.length ≤ n →
+    trimCond (whileFuel trimCond List.dropLast n r) = false
+  | 0, r, h => by
+    have : r = [] := List.eq_nil_of_length_eq_zero (by omega)
+    subst this; simp [whileFuel, trimCond]
+  | n + 1, r, h => by
+    by_cases hc : trimCond r = true
+    · rw [whileFuel, if_pos hc]
+      apply trimCond_after n r.dropLast
+      have : 3 < r.length := by
+        unfold trimCond at hc; simp at hc; exact hc.2
+      simp; omega
+    · have hc' : trimCond r = false := by simpa using hc
+      rw [whileFuel_stable _ _ _ _ hc']; exact hc'
+
+/-- **the result shape computed by `get_subset` as written in dcmmeta.py is the model's `subsetShape`**
+    (split axis singular, trailing singular axes beyond the third removed) for every shape and axis; the
+    bounded rendering of the `while` loop never runs out of rounds -/
+theorem subset_shape_eq (shape : List Nat) (dim : Nat) :
+    Py.subset_shape shape dim = .ok (DExt.subsetShape shape dim) := by
+  unfold Py.subset_shape DExt.subsetShape trimTrailing
+  have hfin := trimCond_after shape.length (shape.set dim 1) (by simp)
+  have hres := whileFuel_trim shape.length (shape.set dim 1).reverse (by simp)
+  rw [List.reverse_reverse] at hres
+  simp only [forIn_while, List.length_range, ok_bind']
+  have hc : (fun (r : List Nat) => r[r.length - 1]! == 1 && decide (r.length > 3)) = trimCond := rfl
+  rw [hc]
+  have hfin' : ((whileFuel trimCond List.dropLast shape.length (shape.set dim 1))[
+      (whileFuel trimCond List.dropLast shape.length (shape.set dim 1)).length - 1]! == 1 &&
+      decide ((whileFuel trimCond List.dropLast shape.length (shape.set dim 1)).length > 3)) = false := hfin
+  rw [if_neg (by rw [hfin']; simp), hres]
+  rfl
+
+def padCond (dim : Nat) (l : List Nat) : Bool := decide (l.length ≤ dim)
+
+theorem whileFuel_pad (dim : Nat) : ∀ (n : Nat) (l : List Nat), dim + 1 - l.length ≤ n →
+    whileFuel (padCond dim) (fun l => l ++ [1]) n l = l ++ List.replicate (dim + 1 - l.length) 1
+  | 0, l, h => by
+    have : dim + 1 - l.length = 0 := by omega
+    simp [whileFuel, this]
+  | n + 1, l, h => by
+    by_cases hc : l.length ≤ dim
+    · have hc' : padCond dim l = true := by simp [padCond, hc]
+      rw [whileFuel, if_pos hc', whileFuel_pad dim n (l ++ [1]) (by simp; omega)]
+      have e : dim + 1 - l.length = (dim + 1 - (l ++ [1]).length) + 1 := by simp; omega
+      rw [e, List.replicate_succ, List.append_assoc]
+      rfl
+    · have hc' : padCond dim l = false := by simp [padCond, hc]
+      have : dim + 1 - l.length = 0 := by omega
+      rw [whileFuel, if_neg (by simp [hc'])]
+      simp [this]
+
+/-- **the result shape computed by `from_sequence` as written in dcmmeta.py is the model's `outShapeOf`** -/
+theorem merge_shape_eq {κ α : Type} (first : DExt κ α) (dim n : Nat) :
+    Py.merge_shape first.shape dim n = .ok (DExt.outShapeOf first dim n) := by
+  unfold Py.merge_shape DExt.outShapeOf
+  simp only [forIn_while, List.length_range, ok_bind']
+  have hc : (fun (r : List Nat) => decide (r.length ≤ dim)) = padCond dim := rfl
+  rw [hc, whileFuel_pad dim (dim + 1) first.shape (by omega)]
+  have hlen : ¬ (first.shape ++ List.replicate (dim + 1 - first.shape.length) 1).length ≤ dim := by
+    simp; omega
+  rw [if_neg (by simp only [decide_eq_true_eq]; exact hlen)]
+  rfl
+
 end Src
